@@ -39,3 +39,18 @@ Theorem C06_issuer_payload_is_blind :
                wf (ie_hash E) (ie_enc E) t' /\ proj (ie_hash E) (ie_enc E) Rall t' = C.
 Proof. exact issuer2_payload_blind. Qed.
 Print Assumptions C06_issuer_payload_is_blind.
+
+(* in a session (build, redact more, build again ...) every build selects exactly the disclosures that no redaction made
+   SO FAR withholds - earlier builds do not freeze the selection - and builds are pure *)
+Require Import SDJ.Sessions.
+Theorem C06_session_selection :
+  forall O pre h,
+  selected (fst (hrun O h pre)) =
+  map (fun p => d_str (snd p))
+      (filter (fun p => negb (withheld (h_paths h) (h_redacted h ++ redactions pre) (fst p))) (h_paths h)).
+Proof. exact session_build_selection. Qed.
+Print Assumptions C06_session_selection.
+
+Theorem C06_builds_are_pure : forall O ops h, fst (hrun O h ops) = fst (hrun O h (filter not_build ops)).
+Proof. exact builds_are_pure. Qed.
+Print Assumptions C06_builds_are_pure.
